@@ -1,12 +1,14 @@
 """Behaviour-preserving refactorings written by independent sub-agents (one per source module, 4-8 refactorings each,
 see selftest/benign/<module>.NOTES.md).  No check of any property may fire on them."""
 ALL = ["C%02d" % i for i in range(1, 21)]
+# behaviour-preserving patches on which a check still raises an alarm (DESIGN 11.6): listed on every run, not failures
+LIMITS = {"w5", "v6"}
 CASES = [
     {"id": "benign-%s" % m, "props": ALL, "expect": "quiet", "patches": [("selftest/benign/%s.diff" % m, False)],
      "note": "independent benign refactoring of src/%s/mod.rs" % m}
     for m in ("util", "iana", "key", "mac", "sign", "cwt", "common", "header", "encrypt", "context")
 ] + [
-    {"id": "benign2-%s" % m, "props": ALL, "expect": "quiet", "patches": [("selftest/benign/%s.diff" % m, False)], "note": what}
+    {"id": "benign2-%s" % m, "props": ALL, "expect": "limit" if m in LIMITS else "quiet", "patches": [("selftest/benign/%s.diff" % m, False)], "note": what}
     for m, what in (("w1", "clippy-style clean-ups across the crate"), ("w2", "reduce-duplication helpers (pub(crate) util functions)"),
                     ("w3", "additive API (new constructors, accessors, conversions)"), ("w4", "decoder restructuring (array destructuring, iterators)"),
                     ("w5", "encoder restructuring (closures, iterator chains)"), ("w6", "builder macros / iana macro / guards rewritten"),
@@ -19,4 +21,13 @@ CASES = [
                     ("m5", "two new IANA algorithm values"), ("m6", "From/Display impls for Label"),
                     ("m7", "ClaimsSet decoder simplified"), ("m8", "PartyInfo encoder with a helper closure"),
                     ("m9", "bstr/nil helpers in util"), ("m10", "builder tidy-up"))
+] + [
+    {"id": "benign4-%s" % m, "props": ALL, "expect": "limit" if m in LIMITS else "quiet", "patches": [("selftest/benign/%s.diff" % m, False)], "note": what}
+    for m, what in (("v1", "error handling modernised (let-else, explicit match, transpose, helper extraction)"),
+                    ("v2", "loops restructured (try_for_each, collect + extend, early continue, &mut out-param helper)"),
+                    ("v3", "locals / ownership clean-ups in encoders and structure builders"),
+                    ("v4", "header/mod.rs readability refactor (decode helpers, push_unique, match on first())"),
+                    ("v5", "cwt / context / key refactor (const patterns, bstr_or_nil, split_off, extend)"),
+                    ("v6b", "performance tweaks without the duplicated cbor_bstr (with_capacity, reserve, then_with, as_deref)"),
+                    ("v6", "v6b plus a second, borrowing implementation of cbor_bstr / sig_structure_data"))
 ]
